@@ -1,4 +1,60 @@
-From HP Require Import Base.Prelude Base.Path KV.Types KV.Run Compose.Helpers.
-Example C08_smoke : prefixes (S "a/b/c") = [S "a"; S "a/b"; S "a/b/c"].
-Proof. vm_compute. reflexivity. Qed.
-Print Assumptions C08_smoke.
+(* C08 -- Package helpers give the same result on every capability subset.
+   Model: Compose/Helpers.v -- [cstep c st o] is the package-level helper for operation [o] on a
+   key-value FS that exposes Open plus the subset [c] of the optional interfaces (the fallbacks of fs.go:
+   Stat via Open+file.Stat, MkdirAll via the prefix loop, RemoveAll via the recursion, Chmod/Chtimes via the
+   file helpers, WriteFullFile via OpenFile+Write+Close).
+   PROVED: the single-dispatch helpers equal the full-interface helper or fail with ErrNotImplemented and
+   change nothing; with every interface exposed the helper is the FS's own method; invalid names are
+   refused identically by MkdirAll's two paths; the MkdirAll fallback returns nil only if every primitive
+   succeeded (or hit an existing directory) and returns the first other primitive failure.
+   The equality fallback == optimised path for Stat, MkdirAll, RemoveAll, Chmod is NOT proved: it is checked
+   by running both on identical copies (the harness's oracle) and against the model (correspondence). *)
+From HP Require Import Base.Prelude Base.Path KV.Types KV.FS KV.Handle KV.Run KV.Corr Compose.Helpers Compose.HelpersProofs.
+Open Scope N_scope.
+
+Theorem C08_masked_helper_is_full_or_unimplemented : forall c st o, single_dispatch o ->
+  cstep c st o = cstep all_caps st o \/ (fst (cstep c st o) = st /\ is_enosys (snd (cstep c st o))).
+Proof. exact masked_is_full_or_unimplemented. Qed.
+Print Assumptions C08_masked_helper_is_full_or_unimplemented.
+
+Theorem C08_full_interface_helper_is_the_native_method : forall st o,
+  single_dispatch o \/ (exists p perm, o = MkdirAll p perm) \/ (exists p m, o = Chmod p m) \/ (exists p t, o = Chtimes p t) ->
+  match o with
+  | OpenClose _ _ _ | WriteFile _ _ _ | ReadDir _ | ReadFile _ => True
+  | _ => cstep all_caps st o = step st o
+  end.
+Proof. exact full_caps_is_native. Qed.
+Print Assumptions C08_full_interface_helper_is_the_native_method.
+
+Theorem C08_mkdirall_refuses_invalid_names_on_both_paths : forall c st p perm, valid_path p = false ->
+  h_mkdirall c st p perm = (st, Some (PathErr p EINVAL)).
+Proof. exact mkdirall_invalid_same. Qed.
+Print Assumptions C08_mkdirall_refuses_invalid_names_on_both_paths.
+
+Theorem C08_mkdirall_fallback_never_reports_undone_work : forall c ps st perm s',
+  mkdirall_loop c st ps perm = (s', None) -> all_made c st ps perm.
+Proof. exact mkdirall_fallback_success_means_all_made. Qed.
+Print Assumptions C08_mkdirall_fallback_never_reports_undone_work.
+
+Theorem C08_mkdirall_fallback_returns_primitive_error : forall c st q rest perm s1 ep cl,
+  h_mkdir c st q perm = (s1, Some (PathErr ep cl)) -> cl <> EEXIST ->
+  mkdirall_loop c st (q :: rest) perm = (s1, Some (PathErr ep cl)).
+Proof. exact mkdirall_fallback_returns_primitive_error. Qed.
+Print Assumptions C08_mkdirall_fallback_returns_primitive_error.
+
+Theorem C08_mkdirall_without_mkdir_is_unimplemented : forall c st q rest perm, c_mkdir c = false ->
+  mkdirall_loop c st (q :: rest) perm = (st, Some (PathErr q ENOSYS)).
+Proof. exact mkdirall_without_mkdir. Qed.
+Print Assumptions C08_mkdirall_without_mkdir_is_unimplemented.
+
+Theorem C08_removeall_swallows_only_not_exist : forall e, swallow_enoent (Some e) = None -> err_cls e = ENOENT.
+Proof. exact swallow_only_enoent. Qed.
+Print Assumptions C08_removeall_swallows_only_not_exist.
+
+Example C08_nonvacuous :
+  prefixes (S "a/b/c") = [S "a"; S "a/b"; S "a/b/c"]
+  /\ snd (cstep (mkCaps true false false true true true true true) kv_init (MkdirAll (S "a/b") 493)) = VErr (PathErr (S "a") ENOSYS)
+  /\ snd (cstep (mkCaps true true false true true false true true) kv_init (MkdirAll (S "a/b") 493)) = VOk
+  /\ snapshot (fst (cstep (mkCaps true true false true true false true true) kv_init (MkdirAll (S "a/b") 493)))
+     = snapshot (fst (cstep all_caps kv_init (MkdirAll (S "a/b") 493))).
+Proof. vm_compute. repeat split; reflexivity. Qed.
